@@ -37,6 +37,7 @@ pub fn op_name(op: &Op) -> &'static str {
         Op::IterSet(_) => "IterSet",
         Op::SetPolicy(_) => "SetPolicy",
         Op::Drain => "Drain",
+        Op::Restart(_) => "Restart",
     }
 }
 
@@ -235,22 +236,23 @@ pub struct ReadCheck {
     pub id: &'static str,
 }
 
-const C13_ONLY: &[&str] = &["panic", "hang"];
-const C17_ONLY: &[&str] = &["wrong_error", "message", "panic", "hang"];
+const C13_ONLY: &[&str] = &["panic", "hang", "wrong_batch"];
+const C19_ONLY: &[&str] = &["panic", "hang"];
+const C17_ONLY: &[&str] = &["wrong_error", "wrong_error_after_refusal", "message", "panic", "hang"];
 const C20_ONLY: &[&str] = &["not_end_after_end", "drain_no_end", "panic", "hang"];
 
 impl ReadCheck {
     fn judge_opts(&self) -> JudgeOpts<'static> {
         match self.id {
-            "C05" => JudgeOpts { prop: "C05", check_pos: true, mon_prefixes: &[], check_msg: false, only: None },
-            "C13" => JudgeOpts { prop: "C13", check_pos: false, mon_prefixes: &["C13."], check_msg: false, only: Some(C13_ONLY) },
-            "C17" => JudgeOpts { prop: "C17", check_pos: false, mon_prefixes: &[], check_msg: true, only: Some(C17_ONLY) },
-            "C19" => JudgeOpts { prop: "C19", check_pos: false, mon_prefixes: &["C19."], check_msg: false, only: Some(C13_ONLY) },
-            "C20" => JudgeOpts { prop: "C20", check_pos: false, mon_prefixes: &["C20."], check_msg: false, only: Some(C20_ONLY) },
-            "C01" => JudgeOpts { prop: "C01", check_pos: false, mon_prefixes: &[], check_msg: false, only: None },
-            "C02" => JudgeOpts { prop: "C02", check_pos: false, mon_prefixes: &[], check_msg: false, only: None },
-            "C04" => JudgeOpts { prop: "C04", check_pos: false, mon_prefixes: &[], check_msg: false, only: None },
-            "C06" => JudgeOpts { prop: "C06", check_pos: false, mon_prefixes: &[], check_msg: false, only: None },
+            "C05" => JudgeOpts { prop: "C05", check_pos: true, mon_prefixes: &[], check_msg: false, only: None, exact_after_seek: true },
+            "C13" => JudgeOpts { prop: "C13", check_pos: false, mon_prefixes: &["C13."], check_msg: false, only: Some(C13_ONLY), exact_after_seek: false },
+            "C17" => JudgeOpts { prop: "C17", check_pos: false, mon_prefixes: &[], check_msg: true, only: Some(C17_ONLY), exact_after_seek: false },
+            "C19" => JudgeOpts { prop: "C19", check_pos: false, mon_prefixes: &["C19."], check_msg: false, only: Some(C19_ONLY), exact_after_seek: false },
+            "C20" => JudgeOpts { prop: "C20", check_pos: false, mon_prefixes: &["C20."], check_msg: false, only: Some(C20_ONLY), exact_after_seek: false },
+            "C01" => JudgeOpts { prop: "C01", check_pos: false, mon_prefixes: &[], check_msg: false, only: None, exact_after_seek: false },
+            "C02" => JudgeOpts { prop: "C02", check_pos: false, mon_prefixes: &[], check_msg: false, only: None, exact_after_seek: false },
+            "C04" => JudgeOpts { prop: "C04", check_pos: false, mon_prefixes: &[], check_msg: false, only: None, exact_after_seek: false },
+            "C06" => JudgeOpts { prop: "C06", check_pos: false, mon_prefixes: &[], check_msg: false, only: None, exact_after_seek: false },
             other => panic!("no judge options for {}", other),
         }
     }
@@ -317,10 +319,21 @@ pub fn gen_read_scn(id: &str, rng: &Rng, tier: Tier) -> ReadScn {
     match id {
         "C01" | "C02" => {
             let fmt = if id == "C01" { Fmt::Fasta } else { Fmt::Fastq };
-            if tier == Tier::Thorough && rng.chance(1, 1500) {
+            if rng.chance(1, 4000) {
+                // interrupt storm / short reads into a large buffer
+                let input = many_small_records(rng, fmt, rng.range(2000, 6000));
+                let cfg = storm_cfg(rng);
+                let n = input.iter().filter(|b| **b == if fmt == Fmt::Fasta { b'>' } else { b'@' }).count();
+                return ReadScn { fmt, input, cfgs: vec![cfg], ops: ops_next_to_end(n), mon: Monitors::default(), profile: "interrupt_storm".into() };
+            }
+            if (tier == Tier::Thorough && rng.chance(1, 1500)) || rng.chance(1, 25000) {
                 let input = if fmt == Fmt::Fasta { big_fasta(rng) } else { big_fastq(rng) };
                 let mut cfg = Cfg::plain(65536);
-                cfg.script = if rng.chance(1, 2) { vec![] } else { vec![rng.range(1000, 70_000) as u32, 0, rng.range(1, 70_000) as u32] };
+                cfg.script = match rng.below(3) {
+                    0 => vec![],
+                    1 => vec![rng.range(1000, 70_000) as u32, 0, rng.range(1, 70_000) as u32],
+                    _ => vec![rng.range(512, 9000) as u32],
+                };
                 let n = input.iter().filter(|b| **b == if fmt == Fmt::Fasta { b'>' } else { b'@' }).count();
                 return ReadScn { fmt, input, cfgs: vec![cfg], ops: ops_next_to_end(n), mon: Monitors::default(), profile: "big_default_capacity".into() };
             }
@@ -365,7 +378,12 @@ pub fn gen_read_scn(id: &str, rng: &Rng, tier: Tier) -> ReadScn {
             } else {
                 any_input(rng, fmt, max_recs, max_noise)
             };
-            let cfg = gen_cfg(rng, &input, true);
+            let mut cfg = gen_cfg(rng, &input, true);
+            if id == "C05" && rng.chance(1, 4) {
+                // "from any reader state": also after an I/O error has been returned
+                let est_calls = 2 * input.len() / cfg.cap.max(1) + 6;
+                cfg.faults.push(Fault { call: rng.small(est_calls), kind: rng.pick(FAULT_KINDS).to_string() });
+            }
             let m = model::build(fmt, &input);
             let n = m.items.len();
             let mix = if id == "C04" {
@@ -374,7 +392,15 @@ pub fn gen_read_scn(id: &str, rng: &Rng, tier: Tier) -> ReadScn {
                 OpMix { next: 4, owned: 1, set: 2, exact: 2, seek: 5, iter: 0 }
             };
             let len = 1 + rng.small(23);
-            let ops = gen_history(rng, mix, len, n, rng.chance(1, 2));
+            let mut ops = gen_history(rng, mix, len, n, rng.chance(1, 2));
+            if id == "C04" && rng.chance(1, 6) && n > 1 {
+                // a second reader on (a tail of) the same input, re-using the record sets
+                let at = rng.below(ops.len() as u64 + 1) as usize;
+                ops.insert(at, Op::Restart(rng.below(n as u64) as usize));
+                for _ in 0..rng.range(1, 6) {
+                    ops.push(Op::ReadSet(rng.below(N_SLOTS as u64) as usize));
+                }
+            }
             ReadScn { fmt, input, cfgs: vec![cfg], ops, mon: Monitors::default(), profile: class.into() }
         }
         "C06" => {
@@ -408,6 +434,20 @@ pub fn gen_read_scn(id: &str, rng: &Rng, tier: Tier) -> ReadScn {
         }
         "C13" | "C19" | "C20" => {
             let fmt = if id == "C20" && rng.chance(2, 3) { Fmt::Fasta } else if rng.chance(1, 2) { Fmt::Fasta } else { Fmt::Fastq };
+            if id == "C19" && rng.chance(1, 300) {
+                // several KiB inside one reader buffer; record sets that start far from offset 0
+                let input = many_small_records(rng, fmt, rng.range(9000, 20000));
+                let cfg = Cfg { cap: rng.range(8192, 16384), policy: PolicySpec::Std, script: vec![], cuts: vec![], faults: vec![] };
+                let mut ops = vec![];
+                for _ in 0..rng.range(3, 12) {
+                    for _ in 0..rng.range(0, 60) {
+                        ops.push(Op::Next);
+                    }
+                    ops.push(if rng.chance(1, 2) { Op::ReadSetExact(rng.below(3) as usize, rng.range(1, 40)) } else { Op::ReadSet(rng.below(3) as usize) });
+                }
+                let mon = Monitors { views: false, iters: false, serde: true, unchanged: false, iter_seed: rng.next_u64() };
+                return ReadScn { fmt, input, cfgs: vec![cfg], ops, mon, profile: "kib_buffer".into() };
+            }
             let (input, class) = if rng.chance(4, 5) {
                 match fmt {
                     Fmt::Fasta => {
@@ -441,6 +481,13 @@ pub fn gen_read_scn(id: &str, rng: &Rng, tier: Tier) -> ReadScn {
             if id == "C20" && rng.chance(1, 3) {
                 ops.push(Op::Drain);
             }
+            if id != "C20" && rng.chance(1, 6) && n > 1 {
+                let at = rng.below(ops.len() as u64 + 1) as usize;
+                ops.insert(at, Op::Restart(rng.below(n as u64) as usize));
+                for _ in 0..rng.range(1, 5) {
+                    ops.push(Op::ReadSet(rng.below(N_SLOTS as u64) as usize));
+                }
+            }
             let mon = Monitors {
                 views: id == "C13" || id == "C19",
                 iters: id == "C20",
@@ -461,7 +508,7 @@ pub fn gen_read_scn(id: &str, rng: &Rng, tier: Tier) -> ReadScn {
                         v.extend_from_slice(if rng.chance(1, 8) { if crlf { b"\n" } else { b"\r\n" } } else { t });
                     }
                     let at = v.len();
-                    v.push(*rng.pick(b"@;AC +x\x00\xff\t'\\"));
+                    v.push(*rng.pick(b"@;AC +x\x00\xff\t'\\\r\r"));
                     v.extend_from_slice(&hostile(rng, 8).into_iter().filter(|b| *b != b'\n').collect::<Vec<u8>>());
                     if rng.chance(2, 3) {
                         v.extend_from_slice(t);
@@ -490,12 +537,24 @@ pub fn gen_read_scn(id: &str, rng: &Rng, tier: Tier) -> ReadScn {
             }
             let m = model::build(fmt, &input);
             let n = m.items.len();
-            let ops = match rng.below(6) {
+            let mut ops = match rng.below(6) {
                 0 => vec![Op::ReadSet(0); n + 2],
                 1 => (0..n + 2).map(|_| Op::ReadSetExact(0, 2)).collect(),
                 _ => ops_next_to_end(n),
             };
-            ReadScn { fmt, input, cfgs: vec![cfg], ops, mon: Monitors::default(), profile: class.into() }
+            let mut profile = class.to_string();
+            if rng.chance(1, 6) {
+                // the error is reached after growth had been refused once and a permissive policy
+                // was installed: the coordinates must still be the true ones
+                cfg.policy = gen_refusing_policy(rng, cfg.cap);
+                let k = rng.range(1, 4);
+                let mut o: Vec<Op> = (0..k).map(|_| match rng.below(3) { 0 => Op::Next, 1 => Op::ReadSetExact(0, rng.range(2, 4)), _ => Op::ReadSet(0) }).collect();
+                o.push(Op::SetPolicy(PolicySpec::Std));
+                o.extend(ops_next_to_end(n));
+                ops = o;
+                profile.push_str("/refused_then_resumed");
+            }
+            ReadScn { fmt, input, cfgs: vec![cfg], ops, mon: Monitors::default(), profile }
         }
         other => panic!("gen_read_scn: unknown id {}", other),
     }
